@@ -172,6 +172,11 @@ uint64_t urandom_consumed();
 void set_urandom_script(const std::vector<int>& script);
 // The next `times` opens of /dev/urandom fail with EMFILE (the process has momentarily no free descriptor).
 void urandom_open_fails(int times);
+void urandom_get_state(uint64_t& pos, size_t& script_pos);
+void urandom_set_state(uint64_t pos, size_t script_pos);
+void urandom_script_suspend(bool on); // a healthy device for a while; the script (and its position) is kept
+// getrandom()/getentropy() are answered from the simulated device too (sim-rand switches this on).
+void simulate_getrandom(bool on);
 size_t urandom_script_used();
 
 } // namespace vfs
